@@ -69,6 +69,7 @@ def w_program(case):
                      'for ' + lab, 'expected': [len(names), states],
                      'observed': [m.n_parameters(), m.outputs()]})
     outcome = []
+    kept = []
     for pi, pv in enumerate(case['points']):
         values = dict(zip(names, pv))
         for ti, times in enumerate(case['grids']):
@@ -87,6 +88,15 @@ def w_program(case):
                         'expected': exp, 'observed': y, 'behaviour': 'trajectory'})
                 if pi == 0 and ti == 0:
                     outcome.append(tol.rnd(y, 6))
+                kept.append((y, y.copy(), list(sel)))
+    # results handed out earlier are not touched by later simulations
+    for y_obj, y_snap, sel_k in kept:
+        if not np.array_equal(y_obj, y_snap):
+            viol.append({'sub': 'retained', 'message': 'an array returned by '
+                         'simulate changed with a later simulation of the same '
+                         'model (%s, outputs %s)' % (lab, sel_k), 'expected': y_snap,
+                         'observed': y_obj, 'behaviour': 'retained'})
+            break
     # a copy taken after simulations solves the same initial-value problem, at the
     # point simulated last and at another one
     sel_last = list(case['selections'][-1])
@@ -219,6 +229,21 @@ def w_program(case):
                          'derivatives of the outputs w.r.t. the (free) parameters '
                          'in published order (%s, fixed=%s)' % (lab, fixed),
                          'expected': eS, 'observed': S, 'behaviour': 'sens'})
+        # results handed out stay the caller's: a later simulation at other values
+        # (same grid, same outputs) does not change them
+        y_first = y
+        snap_y = np.array(y, dtype=float, copy=True)
+        snap_S = np.array(S, dtype=float, copy=True)
+        res_first = res
+        model.simulate(list(1.3 * x + 0.1), list(times))
+        ntr += 1
+        if not (np.array_equal(np.asarray(y_first, dtype=float), snap_y) and
+                np.array_equal(np.asarray(res_first[1], dtype=float), snap_S)):
+            viol.append({'sub': 'retained', 'message': 'outputs / sensitivities '
+                         'returned by simulate changed with the next simulation of '
+                         'the same model (%s, fixed=%s)' % (lab, fixed),
+                         'expected': snap_y, 'observed': np.asarray(
+                             y_first, dtype=float), 'behaviour': 'retained'})
         if fixed and len(free_idx):
             # whole-number free values handed over as Python ints (the fixed values
             # are not whole numbers)
@@ -265,6 +290,30 @@ def w_program(case):
                          'sensitivities (%s)' % lab, 'expected': list(sel),
                          'observed': list(m.outputs()),
                          'behaviour': 'outputs_alias'})
+        m.enable_sensitivities(False)
+        # a selection naming one output twice: every row, and every row of the
+        # sensitivities, is the named output's
+        dup_idx = [0, len(sel) - 1, 0]
+        m.set_outputs([sel[i] for i in dup_idx])
+        m.enable_sensitivities(True)
+        res_d = m.simulate(list(pv), list(times))
+        ntr += 3
+        ok_d = isinstance(res_d, tuple) and len(res_d) == 2
+        if ok_d:
+            y_d = np.asarray(res_d[0], dtype=float)
+            S_d = np.asarray(res_d[1], dtype=float)
+            ok_d = y_d.shape == (3, len(times)) and \
+                S_d.shape == (len(times), 3, len(names)) and \
+                tol.allclose(y_d, ey[dup_idx], tol.ODE_REL, tol.ODE_ABS) and \
+                tol.allclose(S_d, eS[:, dup_idx, :], 1e-5, 1e-7)
+        if not ok_d or m.n_outputs() != 3:
+            viol.append({'sub': 'dup_outputs', 'message': 'with one output selected '
+                         'twice the outputs / sensitivities are not those of the '
+                         'named outputs row by row (%s)' % lab,
+                         'expected': [[3, len(times)], [len(times), 3, len(names)]],
+                         'observed': [list(np.shape(r_)) for r_ in res_d]
+                         if isinstance(res_d, tuple) else repr(type(res_d)),
+                         'behaviour': 'dup_outputs'})
         m.enable_sensitivities(False)
     if len(sel) > 1:
         # the same outputs selected again in another order while sensitivities are
@@ -823,3 +872,4 @@ META['level_text'] += (
     ' through either state variable after every sequence of <= 3 set_administration'
     ' calls, sensitivities enabled before the route is chosen, the wrapper with not'
     'hing fixed.')
+META['level_text'] += (' Wave 9: retained outputs / sensitivities across simulations, a selection naming one output twice with sensitivities.')
